@@ -18,3 +18,5 @@ struct Agg;   // run-loop statistics (main.cpp)
 Verdict evaluate_plan(const Plan &p, Agg *agg);
 
 bool is_known_property(const std::string &prop);
+// trigger predicates of known findings, evaluated on the plan before it is run (DESIGN.md section 9); "" = none
+std::string plan_trigger(const Plan &p);
